@@ -22,8 +22,8 @@
 (***************************************************************************)
 EXTENDS SchemaLang, WireFormat
 
-CONSTANTS Family,     \* "single" | "multi" | "svc" | "either" | "mutant"
-          MaxFields   \* number of fields of Rec in the multi family
+CONSTANTS Family,     \* "single" | "multi" | "svc" | "either" | "mutant" | "evolve"
+          MaxFields   \* number of fields of Rec in the multi family; number of edits in the evolve family
 
 \* ------------------------------------------------------------------ worlds
 \* world: sequence of packages; the FIRST package is the one given to the compiler, all are on the import path
@@ -82,7 +82,7 @@ ImpDecls(shape) == CASE shape = "none" -> <<>> [] shape = "plain" -> <<ImpDecl("
 ScalarTypes == [i \in DOMAIN AllBase |-> B(AllBase[i])]
 LocalTypes == <<TAny, TMsg, Ref("Kind"), Ref("P"), Ref("Q"), Ref("Sub")>>
 ListTypes == <<L(B("bool")), L(B("int64")), L(B("uint16")), L(B("float64")), L(B("string")), L(B("bytes")), L(B("bin128")),
-               L(Ref("Kind")), L(Ref("P")), L(Ref("Sub"))>>
+               L(Ref("Kind")), L(Ref("P")), L(Ref("Sub")), L(TAny), L(TMsg)>>
 ImpTypes(imp) == <<Imp(imp, "Color"), Imp(imp, "Pt"), Imp(imp, "Ext"), L(Imp(imp, "Ext")), L(Imp(imp, "Color")), L(Imp(imp, "Pt"))>>
 TypePool(shape) == Force(ScalarTypes \o LocalTypes \o ListTypes \o (IF shape = "none" THEN <<>> ELSE ImpTypes(ImpName(shape))))
 EitherTypes == <<L(TAny), L(TMsg)>>       \* the statement of C14 lets the compiler reject these or generate compiling code
@@ -284,6 +284,7 @@ MsgSem(world, name, runs) ==
                 written == SelectSeq([i \in DOMAIN fs |-> <<LitNum(fs[i].lit), vs[i]>>], LAMBDA p : p[2].k # "unset")
             IN [vals |-> vs,
                 raws |-> [i \in DOMAIN fs |-> IF vs[i].k = "unset" THEN <<>> ELSE Encode(vs[i])],
+                eraws |-> [i \in DOMAIN fs |-> IF vs[i].k = "list" THEN [e \in DOMAIN vs[i].elems |-> Encode(vs[i].elems[e])] ELSE <<>>],
                 msgval |-> Canon(VMsg(written)),
                 bytes |-> Encode(VMsg(written))]]]
 StructSem(world, name) ==
@@ -374,6 +375,12 @@ svars == <<file, case>>
 
 Accept(world, shape, nfiles, svc) == [verdict |-> "accept", shape |-> shape, nfiles |-> nfiles, svc |-> svc, world |-> world, rule |-> "", name |-> ""]
 
+\* evolve (C16): version B is derived from version A by edits which keep the tags of surviving fields
+EvoBases == <<
+    <<F("a", B("int32"), "1"), F("type", B("string"), "2"), F("message", Ref("Sub"), "7"), F("options", L(B("int64")), "255"), F("struct", Ref("P"), "256")>>,
+    <<F("b2", B("uint64"), "65535"), F("any", TAny, "1"), F("service", L(Ref("Sub")), "2"), F("x_1", Ref("Kind"), "1000"), F("import", B("bytes"), "7")>> >>
+EvoNewFields == <<F("snake_case_name", B("float64"), "3"), F("UPPER", L(B("string")), "4"), F("mixedCase", Ref("Q"), "5"), F("subservice", TMsg, "6")>>
+
 SInit ==
     /\ file = EmptyFile(FALSE, <<>>, FALSE, <<>>)
     /\ CASE Family = "single" ->
@@ -391,12 +398,36 @@ SInit ==
          [] Family = "either" ->
               \E i \in DOMAIN EitherTypes :
                  case = [Accept(World("none", 1, <<F("a", EitherTypes[i], "1")>>, FALSE), "none", 1, FALSE) EXCEPT !.verdict = "either"]
+         [] Family = "evolve" ->
+              \E s \in {"none", "plain"}, bi \in DOMAIN EvoBases :
+                 LET base == EvoBases[bi] \o (IF s = "plain" THEN <<F("ext", Imp("pkgb", "Ext"), "300")>> ELSE <<>>)
+                 IN case = [verdict |-> "evolving", shape |-> s, nfiles |-> 1, svc |-> FALSE, world |-> World(s, 1, base, FALSE), rule |-> "", name |-> "",
+                            a |-> base, b |-> base, edits |-> <<>>]
          [] Family = "mutant" ->
               \E m \in Mutants \cup {MutualCycle} :
                  case = [verdict |-> "reject", shape |-> "plain", nfiles |-> 1, svc |-> TRUE, world |-> m.world, rule |-> m.rule, name |-> m.name]
 
+SwapAt(fs, i, j) == [fs EXCEPT ![i] = fs[j], ![j] = fs[i]]
+EvoNext ==
+    /\ Family = "evolve" /\ case.verdict \in {"evolving", "accept"} /\ Len(case.edits) < MaxFields
+    /\ UNCHANGED file
+    /\ LET fs == case.b IN
+       \/ \E i \in DOMAIN fs : Len(fs) > 1
+             /\ case' = [case EXCEPT !.verdict = "accept", !.b = RemoveAt(fs, i), !.edits = Append(@, "remove " \o fs[i].name)]
+       \/ \E i \in DOMAIN fs, n \in 1..FieldNamePool :
+             /\ \A j \in DOMAIN fs : fs[j].name # Names[n].s
+             /\ \A j \in DOMAIN case.a : case.a[j].name # Names[n].s
+             /\ case' = [case EXCEPT !.verdict = "accept", !.b = [fs EXCEPT ![i].name = Names[n].s], !.edits = Append(@, "rename " \o fs[i].name)]
+       \/ \E i, j \in DOMAIN fs : i < j
+             /\ case' = [case EXCEPT !.verdict = "accept", !.b = SwapAt(fs, i, j), !.edits = Append(@, "swap " \o fs[i].name \o " " \o fs[j].name)]
+       \/ \E k \in DOMAIN EvoNewFields, pos \in 0..Len(fs) :
+             /\ \A j \in DOMAIN fs : fs[j].name # EvoNewFields[k].name /\ fs[j].lit # EvoNewFields[k].lit
+             /\ \A j \in DOMAIN case.a : case.a[j].lit # EvoNewFields[k].lit
+             /\ case' = [case EXCEPT !.verdict = "accept", !.b = SubSeq(fs, 1, pos) \o <<EvoNewFields[k]>> \o SubSeq(fs, pos + 1, Len(fs)),
+                                      !.edits = Append(@, "add " \o EvoNewFields[k].name)]
+
 \* multi: append one field with an unused name and an unused tag, any type of the pool
-SNext ==
+SNext == EvoNext \/
     /\ Family = "multi" /\ case.verdict = "building"
     /\ UNCHANGED file
     /\ IF Len(case.fields) = MaxFields
@@ -407,14 +438,14 @@ SNext ==
 
 SSpec == SInit /\ [][SNext]_svars
 
-Complete == case.verdict # "building"
+Complete == case.verdict \notin {"building", "evolving"}
 
 \* ------------------------------------------------------------------ properties of the specification itself
 \* every generated schema of the accepting families breaks no rule; every mutant breaks exactly the rule of its operator at the named element
 VerdictConsistent ==
     Complete =>
       LET vs == Violations(case.world) IN
-      CASE case.verdict = "accept" -> vs = {}
+      CASE case.verdict = "accept" -> vs = {} /\ (Family = "evolve" => Violations(World(case.shape, 1, case.b, FALSE)) = {})
         [] case.verdict = "either" -> vs = {}
         [] case.verdict = "reject" -> V(case.rule, case.name) \in vs /\ \A x \in vs : x.rule = case.rule
 \* tags of an accepted message are distinct, so the dynamic value is well defined
@@ -426,14 +457,29 @@ TagsDistinct ==
 Files(world) == [p \in DOMAIN world |-> [id |-> world[p].id,
                     files |-> [i \in DOMAIN world[p].files |-> [name |-> world[p].files[i].name, tokens |-> FileTokens(world[p].files[i].ast),
                                                                ast |-> world[p].files[i].ast]]]]
-SemRecord ==
-    IF case.verdict = "accept"
-    THEN LET n == Len(FindDef(PkgDefs(case.world[1]), "Rec").fields) IN
-         [msgs |-> <<MsgSem(case.world, "Rec", RunsFor(n)), MsgSem(case.world, "Sub", <<<<1, 1>>, <<2, 0>>>>)>>,
-          structs |-> <<StructSem(case.world, "P"), StructSem(case.world, "Q")>>,
-          enums |-> <<EnumSem(KindDef)>>]
-    ELSE [msgs |-> <<>>, structs |-> <<>>, enums |-> <<>>]
+SemOf(world) ==
+    LET n == Len(FindDef(PkgDefs(world[1]), "Rec").fields) IN
+    [msgs |-> <<MsgSem(world, "Rec", RunsFor(n)), MsgSem(world, "Sub", <<<<1, 1>>, <<2, 0>>>>)>>,
+     structs |-> <<StructSem(world, "P"), StructSem(world, "Q")>>,
+     enums |-> <<EnumSem(KindDef)>>]
+NoSem == [msgs |-> <<>>, structs |-> <<>>, enums |-> <<>>]
+SemRecord == IF case.verdict = "accept" THEN SemOf(case.world) ELSE NoSem
+
+\* C16: what a reader compiled from version B of the schema sees in a message written under version A:
+\* a field of B whose tag A declares reads A's value, any other field of B is unset
+EvolveRecord ==
+    IF Family # "evolve" THEN [pkgs |-> <<>>]
+    ELSE LET wb == World(case.shape, 1, case.b, FALSE)
+             afs == case.a
+             bfs == case.b
+             aruns == MsgSem(case.world, "Rec", RunsFor(Len(afs))).runs
+         IN [pkgs |-> Files(wb), sem |-> SemOf(wb), edits |-> case.edits,
+             fields |-> [i \in DOMAIN bfs |-> [name |-> bfs[i].name, go |-> GoName(bfs[i].name), tag |-> LitNum(bfs[i].lit), type |-> bfs[i].type]],
+             runs |-> [r \in DOMAIN aruns |->
+                  [bvals |-> [i \in DOMAIN bfs |->
+                       LET S == {j \in DOMAIN afs : afs[j].lit = bfs[i].lit}
+                       IN IF S = {} THEN Unset ELSE aruns[r].vals[CHOOSE j \in S : TRUE]]]]]
 SRecord == [verdict |-> case.verdict, rule |-> case.rule, name |-> case.name, shape |-> case.shape, nfiles |-> case.nfiles, svc |-> case.svc,
-            pkgs |-> Files(case.world), sem |-> SemRecord, names |-> Names]
+            pkgs |-> Files(case.world), sem |-> SemRecord, names |-> Names, evolve |-> EvolveRecord]
 SEmit == Complete => PrintT(ToJson(SRecord))
 =============================================================================
